@@ -51,7 +51,7 @@ func checkC14(c *Ctx, w *World) {
 			}
 		}
 	}
-	delayedSwitchRule(m, c)
+	delayedSwitchRule(m, c, func(r string) string { return r })
 }
 
 // delayRules: the immediate / delayed decision of switchFromTo as exact truth tables. Shared by C14 (switching delay)
@@ -142,7 +142,7 @@ func statusDomainClosed(m *mectx) bool {
 // delayedSwitchRule: the delayed-switch timer moves current only to its still-present, still-available target, and never
 // from a present current endpoint that is available or recovering to a lower-priority one (exact reaching condition
 // over the closure's own lookups; the status domain is closed by C14.status).
-func delayedSwitchRule(m *mectx, c *Ctx) {
+func delayedSwitchRule(m *mectx, c *Ctx, R func(string) string) {
 	p, fn := m.p, m.delayed
 	var lkF, lkC *ssa.Lookup
 	eachInstr(fn, func(in ssa.Instruction) {
@@ -165,7 +165,7 @@ func delayedSwitchRule(m *mectx, c *Ctx) {
 		return // the closure delegates the decision (covered by C13.writers / C14.revalidate)
 	}
 	if lkF == nil || lkC == nil {
-		c.fail("C14.revalidate", "delayed switch: decision", p.pos(fn.Pos()), "the delayed-switch timer stores current without looking up both its target and the current endpoint in its own critical section")
+		c.fail(R("C14.revalidate"), "delayed switch: decision", p.pos(fn.Pos()), "the delayed-switch timer stores current without looking up both its target and the current endpoint in its own critical section")
 		return
 	}
 	isF := func(v ssa.Value) bool { return isExtractOf(stripConv(v), lkF, 0) }
@@ -183,7 +183,7 @@ func delayedSwitchRule(m *mectx, c *Ctx) {
 	}
 	cs := newCondSpace(fn, recOf(atoms...), atomNames(atoms...)...)
 	if cs.err != "" {
-		c.undecided("C14.revalidate", "delayed switch: decision", p.pos(fn.Pos()), cs.err)
+		c.undecided(R("C14.revalidate"), "delayed switch: decision", p.pos(fn.Pos()), cs.err)
 		return
 	}
 	cs.ExactlyOne("targetAvailable", "targetUnavailable", "targetRecovering")
@@ -193,10 +193,10 @@ func delayedSwitchRule(m *mectx, c *Ctx) {
 		reach := cs.Reach(st)
 		_, tgt, _ := loadedField(st.Val)
 		imp1, w1 := cs.Implies(reach, cs.And(A("targetPresent"), A("targetAvailable")))
-		c.check(imp1 && tgt != nil && isF(tgt), "C14.revalidate", "delayed switch: target still present and available", p.ipos(st),
+		c.check(imp1 && tgt != nil && isF(tgt), R("C14.revalidate"), "delayed switch: target still present and available", p.ipos(st),
 			"the timer moves current only to its target, and only if that is still in the table and available now", "the delayed switch can move current to a target that was removed or is no longer available: "+w1)
 		imp2, w2 := cs.Implies(cs.And(reach, A("curPresent"), A("curBetter")), A("curUnavailable"))
-		c.check(imp2, "C14.revalidate", "delayed switch: never down from a usable endpoint", p.ipos(st),
+		c.check(imp2, R("C14.revalidate"), "delayed switch: never down from a usable endpoint", p.ipos(st),
 			"current moves to a lower-priority target only when the current endpoint is gone or unavailable (not while it is available or still recovering)",
 			"an outdated delayed switch can move current from an endpoint that is available or still inside its recovery window to a lower-priority one: "+w2)
 	}
